@@ -100,7 +100,7 @@ def port_loop_obligations():
 K_MOD = "hdl21.proto.exporting:ProtoExporter.export_module"
 K_INST = "hdl21.proto.exporting:ProtoExporter.export_instance"
 WANT_ITERS = {"signals": "list(module.signals.values()) + list(module.ports.values())",
-              "ports": "module.ports.values()", "instances": "module.instances.values()"}
+              "ports": "module.ports.values()", "instances": "module.instances.values()", "literals": "module.literals"}
 
 
 class ExportInstanceCallee(Contract):
@@ -143,8 +143,12 @@ def module_loop_obligations():
     for field, want in WANT_ITERS.items():
         found = loops.get(field, [])
         ok = len(found) == 1 and ast.unparse(found[0].iter) == want
-        obs.append(Obligation(f"{K_MOD}/{field}-loop/iterates-over-all", "post", [], z3.BoolVal(ok), K_MOD, f"{field}-loop", 0,
-                              {"trace": [f"found: {[ast.unparse(l.iter) for l in found]}; wanted: {want}"]}))
+        # (a comparison of source text: losing it loses the inductive argument, not necessarily the property - the
+        #  caller files these under frame_audit, i.e. UNDECIDED, and the bounded part decides)
+        info.setdefault("iteration_sources", 0)
+        info["iteration_sources"] += 1
+        if not ok:
+            info.setdefault("iteration_offenders", []).append((f"{field}-loop", f"found {[ast.unparse(l.iter) for l in found]}, wanted {want}"))
     schema = {"Port.signal": "str", "Port.direction": "int", "Module.signals": "py", "Module.ports": "py",
               "Module.instances": "py", "of": "ref"}
     for field, elem_cls, rec_cls in (("signals", Signal, vckt.Signal), ("ports", Signal, vckt.Port),
@@ -200,4 +204,45 @@ def module_loop_obligations():
                         goal = z3.And(goal, s2.heap.get("Port.signal", new.z) == name0)
             obs.append(Obligation(f"{K_MOD}/{field}-loop/p{pi}/post.one-record-appended", "post", list(s2.pc), goal, K_MOD,
                                   f"{field}-loop", pi, {"trace": list(s2.trace), "havoc": list(s2.ghost.get("havoc", ()))}))
+    obs += _literal_loop(ext, loops, info)
     return K_MOD, obs, info
+
+
+def _literal_loop(ext, loops, info):
+    """(4) the literals loop: the text of that very Literal (export_literal inlined from the current source) is appended
+    at the end of pmod.literals, the earlier texts stay"""
+    from pyvc.engine import Frame
+    from hdl21.literal import Literal
+    from hdl21.proto.exporting import ProtoExporter
+    if len(loops.get("literals", [])) != 1:
+        return []
+    loop = loops["literals"][0]
+    eng = mk_engine(contracts=[], schema_extra={"Module.literals": "py", "text": "str"},
+                    inline={"hdl21.proto.exporting:export_literal"})
+    st = eng.new_state()
+    pmod = sym_ref(st, "pmod", (vckt.Module,))
+    before = (SStr(z3.String("lit0")), SStr(z3.String("lit1")))
+    eng.write_field(st, pmod, "literals", before)
+    elem = sym_ref(st, "elem", (Literal,))
+    text0 = st.heap.get("text", elem.z)
+    st.locals = {"self": sym_ref(st, "self", (ProtoExporter,)), "module": Opaque("module"), "pmod": pmod, loop.target.id: elem}
+    eng.frames.append(Frame(ext, ext.key))
+    eng.cuts = []
+    try:
+        outs = eng.exec_block(loop.body, st)
+    except Unsupported as e:
+        info["unsupported"].append(f"literals loop body: {e}")
+        return []
+    finally:
+        eng.frames.pop()
+    info["scenarios"] += 1
+    obs = []
+    for pi, (kind, s2, v) in enumerate(outs):
+        info["paths"] += 1
+        now = eng.read_field(s2, pmod, "literals")[0][1] if kind != "exc" else None
+        goal = z3.BoolVal(False)
+        if isinstance(now, tuple) and len(now) == 3 and all(isinstance(x, SStr) for x in now):
+            goal = z3.And(now[0].z == before[0].z, now[1].z == before[1].z, now[2].z == text0)
+        obs.append(Obligation(f"{K_MOD}/literals-loop/p{pi}/post.the-text-appended", "post", list(s2.pc), goal, K_MOD,
+                              "literals-loop", pi, {"trace": list(s2.trace), "havoc": list(s2.ghost.get("havoc", ()))}))
+    return obs
